@@ -905,9 +905,9 @@ def _corr_resample(ctx, drv):
         data = nprng.normal(size=ln) + rng.choice([0.0, 3.0])
         if rng.random() < 0.15:
             data = np.full(ln, float(rng.choice([3.0, -0.375, 0.1, 1e6 + 0.3])))
-        elif rng.random() < 0.45:
-            # the same numbers stored with another dtype (raw counts, single precision, a Python list)
-            dtn = rng.choice(_DTYPES)
+        elif rng.random() < 0.45 or len(dtypes) < len(_DTYPES):
+            # the same numbers stored with another dtype (raw counts, single precision, a Python list); every dtype at least once
+            dtn = _DTYPES[len(dtypes)] if len(dtypes) < len(_DTYPES) else rng.choice(_DTYPES)
             data = _typed_numbers(nprng, ln, dtn)[1]
             dtypes[len(ncases)] = dtn
         ncases.append((p, q, pts, beta, w, data))
@@ -1137,6 +1137,655 @@ def _corr_rescale(ctx, drv):
             ctx.disagree("rescale-n_oct", c, {"psd": np.asarray(po).tolist(), "ms": np.asarray(ms).tolist()}, {"psd": mp_.tolist(), "ms": mm.tolist()})
 
 
+# ----- fixtime, every option: sr='auto', dropval, delspikes, base (Model/FixtimeFull.lean) -------------------
+
+import signal as _signal
+
+
+class _Timeout(Exception):
+    pass
+
+
+def _alarm(*_a):
+    raise _Timeout()
+
+
+def _guarded(fn, secs=3):
+    """fn() with a wall-clock limit (despike(exclude_point='last') does not terminate on some records);
+    -> ('ok', value) | ('timeout', None) | ('error', name)"""
+    try:
+        old = _signal.signal(_signal.SIGALRM, _alarm)
+    except ValueError:          # not in the main thread: no limit available
+        old = None
+    try:
+        if old is not None:
+            _signal.alarm(secs)
+        return ("ok", fn())
+    except _Timeout:
+        return ("timeout", None)
+    except (ValueError, IndexError, ZeroDivisionError, FloatingPointError) as e:
+        return ("error", type(e).__name__)
+    finally:
+        if old is not None:
+            _signal.alarm(0)
+            _signal.signal(_signal.SIGALRM, old)
+
+
+_XP_PY = {"f": "first", "m": "middle", "l": "last", "n": None}
+
+
+def _xp_py(tok):
+    return _XP_PY[tok] if tok in _XP_PY else int(tok[1:])
+
+
+def _gen_spiky(rng, n, exact):
+    """data for the despikers: a flat (exact) or gently varying background with a few spikes; integers, so that with a
+    window of n-1 = 2^k points every statistic of the code is computed exactly"""
+    b = rng.choice([0, 2, 5, 100])
+    y = [b] * n if exact else [b + rng.choice([0, 0, 0, 1, -1]) for _ in range(n)]
+    for _ in range(rng.randint(1, 4)):
+        i = rng.randrange(n)
+        w = rng.randint(1, 3)
+        a = rng.choice([4, 8, 16, -8, 3, 100, 5, -4])
+        for k in range(i, min(n, i + w)):
+            y[k] += a
+    return [float(v) for v in y]
+
+
+def _gen_delspikes(rng, exact):
+    """a `delspikes` argument of fixtime: False | True | dict"""
+    k = rng.random()
+    if k < 0.2:
+        return True
+    method = rng.choice(["despike_diff", "despike_diff", "despike", "despike", "simple"])
+    d = {"method": method, "n": rng.choice([3, 5, 9] if exact else [3, 5, 9, 4, 7, 15]), "sigma": rng.choice([8, 2, 3, 1]),
+         "maxiter": rng.choice([-1, -1, 1, 2, 0])}
+    if method != "simple":
+        if rng.random() < (1.0 if exact else 0.6):
+            d["threshold_value"] = float(rng.choice([4, 2, 8, 0, 3, 5]))
+        else:
+            d["threshold_sigma"] = float(rng.choice([2, 0, 1]))
+        if method == "despike":
+            d["exclude_point"] = rng.choice(["first", "first", "middle", 0, 1, "last"] if not exact else ["first", "first", "middle", 0, 1])
+        elif rng.random() < 0.3:
+            d["exclude_point"] = rng.choice(["first", 0, "last"])
+    return d
+
+
+def _gen_fixfull(rng, kind=None):
+    """a fixtime input with every option in play"""
+    c = _gen_fixtime(rng, kind)
+    c["full"] = True
+    n = len(c["t"])
+    c["sr_opt"] = "auto" if rng.random() < 0.35 else c["sr"]
+    if rng.random() < 0.15:
+        c["sr_opt"] = rng.choice([3, 5, 10, 0.5, 12.5])
+    t0 = min(c["t"])
+    c["base"] = None if rng.random() < 0.5 else rng.choice([0.0, t0 + rng.randint(-40, 400) / GRID, t0 - 1000.0, float(rng.randint(-5, 50)),
+                                                           t0 + rng.randint(0, 64) / (2.0 * c["sr"])])
+    dv = rng.choice(["default", "default", "default", -999.0, 0.0, "nan", 7.5])
+    c["dropval"] = dv
+    y = _yarr(c)
+    if isinstance(dv, float) and dv != 0.0:
+        for _ in range(rng.randint(1, 3)):
+            y[rng.randrange(n)] = dv * rng.choice([1.0, 1.005, 0.995, 1.02, 0.98, 1.0])
+    exact = rng.random() < 0.5
+    c["delspikes"] = False
+    if rng.random() < 0.4 and n >= 12:
+        ds = _gen_delspikes(rng, exact)
+        c["delspikes"] = ds
+        c["spike_exact"] = exact and isinstance(ds, dict) and ds["method"] != "simple"
+        yy = np.array(_gen_spiky(rng, n, c["spike_exact"]))
+        bad = ~np.isfinite(y) if c["deldrops"] else np.zeros(n, bool)   # keep the drop-outs only where they are deleted
+        if isinstance(dv, float) and c["deldrops"]:
+            bad |= np.isfinite(y) & (np.abs(y - dv) < abs(dv) / 100)
+        y = np.where(bad, y, yy)
+    c["y"] = ["%r" % float(v) for v in y]
+    return c
+
+
+def _dropval_of(c):
+    dv = c.get("dropval", "default")
+    return DROPVAL if dv == "default" else float("nan") if dv == "nan" else float(dv)
+
+
+def _delspikes_params(ds):
+    """the effective parameters after fixtime's _prep_delspikes: (method, n, sigma, maxiter, ts, tv, xp token)"""
+    d = dict(ds) if isinstance(ds, dict) else {}
+    method = d.get("method", "despike_diff")
+    xp = d.get("exclude_point", "first")
+    tok = {"first": "f", "middle": "m", "last": "l", None: "n"}[xp] if (xp is None or isinstance(xp, str)) else "k%d" % xp
+    return method, int(d.get("n", 15)), d.get("sigma", 8), int(d.get("maxiter", -1)), d.get("threshold_sigma", 2.0), d.get("threshold_value", None), tok
+
+
+def _run_fixfull(c):
+    """-> ('ok', dict) | ('timeout'|'error', what)"""
+    from pyyeti import dsp
+
+    t = np.array(c["t"], dtype=float)
+    y = _yarr(c)
+
+    def call():
+        with warnings.catch_warnings(record=True) as w:
+            warnings.simplefilter("always")
+            with np.errstate(all="ignore"):
+                (tn, yn), info = dsp.fixtime(
+                    (t.copy(), y.copy()), c["sr_opt"], hold_previous_value=c["hold"], previous_value_tol=c["tol"],
+                    deldrops=c["deldrops"], dropval=_dropval_of(c), delouttimes=c["delouttimes"], delspikes=c["delspikes"],
+                    base=c["base"], getall=True, verbose=False)
+        msgs = [str(x.message) for x in w]
+        return np.asarray(tn), np.asarray(yn), info, msgs
+
+    st, r = _guarded(call)
+    if st != "ok":
+        return st, r
+    tn, yn, info, msgs = r
+    ad = info.alldrops
+    early = isinstance(ad, tuple)
+    ns = ad[2] if early else ad
+
+    def lst(v):
+        return None if v is None else sorted(int(i) for i in np.asarray(v).ravel())
+
+    return "ok", {"tn": tn, "yn": yn, "early": early, "dropouts": lst(ns.dropouts), "outtimes": lst(ns.outtimes), "spikes": lst(ns.spikes),
+                  "alldrops": lst(ns.alldrops), "sr_stats": None if info.sr_stats is None else [float(v) for v in info.sr_stats],
+                  "tp": None if info.tp is None else [int(i) for i in info.tp],
+                  "niter": None if info.despike_info is None else int(info.despike_info.niter),
+                  "warn_small": any("smaller than" in m for m in msgs), "warn_large": any("larger than" in m for m in msgs)}
+
+
+def _sample_tokens(y):
+    return " ".join("nan" if v != v else "inf" if v in (float("inf"), float("-inf")) else _q(v) for v in y)
+
+
+def _opt(v):
+    return "none" if v is None else _q(v)
+
+
+def _fxt_request(c, ts_, ys_, sv, sr_tok, spike_flags):
+    dv = _dropval_of(c)
+    ds = c["delspikes"]
+    spn = "none" if not ds else str(_delspikes_params(ds)[1])
+    return "fxt %d %d %d | %s %s %s %s %s | %s | %s | %s | %s" % (
+        c["deldrops"], c["delouttimes"], c["hold"], "none" if not math.isfinite(dv) else _q(dv), sr_tok, _q(c["tol"]), _opt(c["base"]), spn,
+        _qs(ts_), _sample_tokens(ys_), "" if sv is None else " ".join(str(int(i)) for i in sv), " ".join("1" if b else "0" for b in spike_flags))
+
+
+def _despike_requests(method, n, sigma, maxiter, ts, tv, xp, data, eps):
+    """the model request for one despiker call with all thresholds scaled by (1 + eps)"""
+    f = Fraction(1) + Fraction(eps)
+    sg = Fraction(sigma) * f
+    if method == "simple":
+        return "smp %d %s %d | %s" % (n, _q(sg), maxiter, _qs(data))
+    tsq = Fraction(ts) * f
+    scale = max([1.0] + [abs(v) for v in data])
+    tvq = "none" if tv is None else _q(Fraction(tv) + Fraction(eps) * Fraction(scale))
+    return "%s %d %s %d %s %s %s | %s" % ("dsp" if method == "despike" else "dsd", n, _q(sg), maxiter, _q(tsq), tvq, xp, _qs(data))
+
+
+_EPS = Fraction(1, 10 ** 9)
+
+
+def _parse_fxt(r):
+    if r in ("raises", "bad-op"):
+        return r
+    e, tn, src, dr, ot, sp, ad, kp, sr, st, tp, wr, sh = r.split("|")
+
+    def nats(x):
+        return None if x.strip() == "none" else [int(v) for v in x.split()]
+
+    stats = None
+    if st.strip() != "none":
+        v = st.split()
+        stats = {"max": float("inf") if v[0] == "inf" else Fraction(v[0]), "min": Fraction(v[1]), "ave": Fraction(v[2]), "mode": Fraction(v[3]),
+                 "pct": Fraction(v[4]), "dsr": Fraction(v[5]), "bymode": v[6] == "1", "defsr": Fraction(v[7])}
+    return {"early": e == "1", "tnew": _unq(tn), "src": nats(src), "dropouts": nats(dr), "outtimes": nats(ot), "spikes": nats(sp), "alldrops": nats(ad),
+            "keep": nats(kp), "sr": Fraction(sr), "stats": stats, "tp": nats(tp), "warn": [x == "1" for x in wr.split()], "shift": Fraction(sh)}
+
+
+def _sr_near_tie(difft, st):
+    """is a rounding or a comparison of _sr_calcs within 1e-9 of a tie on these steps? (model statistics `st`)"""
+    d = [Fraction(float(x)) for x in difft if x != 0]
+    if not d:
+        return True
+    sr_all = [1 / x for x in d]
+    sr1 = min(sr_all)
+    tol = Fraction(1, 10 ** 9)
+
+    def half(x):
+        fr = x - math.floor(x)
+        return abs(fr - Fraction(1, 2)) <= tol * max(1, abs(x))
+
+    if abs(sr1 - 5) <= tol * 5 or (sr1 <= 5 and half(10 * max(sr1, Fraction(1, 10)))):
+        return True
+    dsr = st["dsr"]
+    if any(half(s / dsr) for s in sr_all) or half(st["ave"] / dsr):
+        return True
+    if abs(st["pct"] - 90) <= tol * 90 or abs(abs(st["mode"] - st["ave"]) - dsr) <= tol * dsr:
+        return True
+    return False
+
+
+def _corr_fixfull(ctx, drv):
+    """dsp.fixtime with every option against Model/FixtimeFull.lean (exact at Rat; numeric where the sample rate is not
+    dyadic), the despiker's flags from Model/FixtimeDespike.lean"""
+    rng = ctx.rng
+    cases = []
+    # fixed cases: a time exactly 3 sigma from the mean (not an outlier: the test is strict), sr='auto' on exactly uniform
+    # data at 8 Hz (chooses 10), base, the despike documentation example
+    for tt in ([3, 16, 18, 19, 33, 39, 43, 45, 49, 52, 57, 58, 166], [14, 28, 34, 35, 36, 40, 44, 51, 54, 55, 56, 165]):
+        cases.append({"t": [float(v) for v in tt], "y": ["%r" % float(k) for k in range(len(tt))], "sr": 1, "sr_opt": 1, "hold": False, "tol": 1e-3,
+                      "deldrops": True, "delouttimes": True, "kind": "sigma-tie", "full": True, "base": None, "dropval": "default", "delspikes": False})
+    cases.append({"t": (np.arange(40) / 8).tolist(), "y": ["%r" % float(k) for k in range(40)], "sr": 8, "sr_opt": "auto", "hold": False, "tol": 1e-3,
+                  "deldrops": True, "delouttimes": True, "kind": "uniform", "full": True, "base": None, "dropval": "default", "delspikes": False})
+    cases.append({"t": (np.arange(30) / 4).tolist(), "y": ["%r" % float(k) for k in range(30)], "sr": 4, "sr_opt": 4, "hold": False, "tol": 1e-3,
+                  "deldrops": True, "delouttimes": True, "kind": "uniform", "full": True, "base": 0.125, "dropval": "default", "delspikes": False})
+    cases.append({"t": [float(k) for k in range(6)], "y": ["nan", "inf", "-inf", "nan", "%r" % DROPVAL, "nan"], "sr": 1, "sr_opt": 1, "hold": False, "tol": 1e-3,
+                  "deldrops": True, "delouttimes": True, "kind": "dropouts", "full": True, "base": None, "dropval": "default", "delspikes": False})
+    yy = [2.0] * 30
+    yy[4] = 5.0
+    yy[9] = 7.0
+    yy[20] = 6.0
+    for ds in ({"method": "despike_diff", "n": 5, "threshold_value": 4.0}, {"method": "despike", "n": 5, "threshold_value": 4.0, "sigma": 2},
+               {"method": "despike", "n": 5, "threshold_value": 4.0, "exclude_point": "middle", "sigma": 2}, {"method": "simple", "n": 5, "sigma": 2}):
+        cases.append({"t": [float(k) for k in range(30)], "y": ["%r" % v for v in yy], "sr": 1, "sr_opt": 1, "hold": False, "tol": 1e-3, "deldrops": True,
+                      "delouttimes": True, "kind": "spikes", "full": True, "base": None, "dropval": "default", "delspikes": ds, "spike_exact": ds["method"] != "simple"})
+    cases += [_gen_fixfull(rng) for _ in range(ctx.pick(900, 6000))]
+    # phase A: what survives _del_drops / _del_outtimes (the despiker's input)
+    pre = []
+    reqA = []
+    for c in cases:
+        ds = c["delspikes"]
+        if ds and not c["deldrops"] and not np.isfinite(_yarr(c)).all():
+            ctx.skip("fixtime: despiking a record that keeps its nan/inf samples")
+            continue
+        st, r = _run_fixfull(c)
+        if st == "timeout":
+            ctx.count("fixtime-full:despiker-does-not-terminate")
+            ctx.skip("fixtime: the despiker did not terminate within 3 s")
+            continue
+        ts_, ys_, sv = _sorted_record(c)
+        dv = _dropval_of(c)
+        spn = "none" if not ds else str(_delspikes_params(ds)[1])
+        reqA.append("fxk %d %d %s | %s | %s | %s" % (c["deldrops"], c["delouttimes"], spn, "none" if not math.isfinite(dv) else _q(dv), _qs(ts_), _sample_tokens(ys_)))
+        pre.append((c, st, r, ts_, ys_, sv))
+    repA = drv.ask(reqA)
+    # phase B: the despiker on those samples (nominal and with every threshold scaled by 1 +- 1e-9)
+    reqB = []
+    slots = []
+    for (c, st, r, ts_, ys_, sv), ra in zip(pre, repA):
+        ds = c["delspikes"]
+        if not ds or ra in ("early", "bad-op"):
+            slots.append(None)
+            continue
+        keep1 = [int(v) for v in ra.split()]
+        data = [float(ys_[i]) for i in keep1]
+        if not all(math.isfinite(v) for v in data) or len(data) < 4:
+            slots.append("skip")
+            continue
+        m, n, sg, mi, tsg, tv, xp = _delspikes_params(ds)
+        slots.append(len(reqB))
+        for eps in (0, _EPS, -_EPS):
+            reqB.append(_despike_requests(m, n, sg, mi, tsg, tv, xp, data, eps))
+    repB = drv.ask(reqB)
+    # phase C: the whole routine
+    reqC = []
+    keepC = []
+    for (c, st, r, ts_, ys_, sv), ra, sl in zip(pre, repA, slots):
+        if sl == "skip":
+            ctx.skip("fixtime: despiker input outside the model (non-finite or fewer than 4 samples)")
+            continue
+        flags = []
+        niter = None
+        if sl is not None:
+            nom, up, dn = repB[sl], repB[sl + 1], repB[sl + 2]
+            if "raises" in (nom, up, dn) or "bad-op" in (nom, up, dn):
+                if st == "ok" and nom == "raises" and _delspikes_params(c["delspikes"])[0] != "simple":
+                    ctx.disagree("fixtime-full-despiker-raises", c, "returned", nom)
+                else:
+                    ctx.skip("fixtime: the despiker raises / leaves the model's domain")
+                continue
+            if not (nom == up == dn):
+                if c.get("spike_exact"):
+                    ctx.count("branch:despike-exact-tie")      # a designed tie, every statistic exact: compared as is
+                else:
+                    ctx.skip("fixtime: a despike decision within 1e-9 of its threshold")
+                    continue
+            fl, ni = nom.split("|")
+            flags = [x == "1" for x in fl.split()]
+            niter = int(ni)
+        sr_tok = "auto" if c["sr_opt"] == "auto" else _q(c["sr_opt"])
+        reqC.append(_fxt_request(c, ts_, ys_, sv, sr_tok, flags))
+        keepC.append((c, st, r, ts_, ys_, sv, niter))
+    repC = drv.ask(reqC)
+    again = []
+    for (c, st, r, ts_, ys_, sv, niter), rc in zip(keepC, repC):
+        m = _parse_fxt(rc)
+        if m == "bad-op":
+            ctx.disagree("fixtime-full", c, st, m)
+            continue
+        if st != "ok" or m == "raises":
+            ctx.case(("fixfull", json.dumps(c, sort_keys=True)), nontrivial=False, branch="fixtime-full:raises")
+            if (st == "ok") != (m != "raises"):
+                if c["sr_opt"] == "auto" or len(ts_) < 3:
+                    ctx.skip("fixtime: error kind of a degenerate record")
+                else:
+                    ctx.disagree("fixtime-full-raises", c, st if st != "ok" else "returned", m if m == "raises" else "returned")
+            continue
+        bad = _cmp_fixfull(ctx, c, r, m, ts_, ys_, niter)
+        if bad is not None:
+            again.append((c, r, m, ts_, ys_, sv, niter, bad, reqC[keepC.index((c, st, r, ts_, ys_, sv, niter))]))
+    # a disagreement with a sample rate that is not a dyadic number: re-run the model with the rate moved by 1e-11 either way;
+    # if the model's own structure changes the case sits on a rounding tie and is skipped
+    req2 = []
+    for (c, r, m, ts_, ys_, sv, niter, bad, rq) in again:
+        den = m["sr"].denominator
+        if den & (den - 1) == 0:
+            continue
+        for f in (Fraction(1) + Fraction(1, 10 ** 11), Fraction(1) - Fraction(1, 10 ** 11)):
+            parts = rq.split("|")
+            opts = parts[1].split()
+            opts[1] = _q(m["sr"] * f)
+            parts[1] = " " + " ".join(opts) + " "
+            req2.append("|".join(parts))
+    rep2 = drv.ask(req2)
+    k2 = 0
+    for (c, r, m, ts_, ys_, sv, niter, bad, rq) in again:
+        den = m["sr"].denominator
+        if den & (den - 1) != 0:
+            a, b = _parse_fxt(rep2[k2]), _parse_fxt(rep2[k2 + 1])
+            k2 += 2
+            def shape(x):
+                return x if isinstance(x, str) else (len(x["tnew"]), x["src"], x["tp"], x["alldrops"], x["warn"])
+            if not (shape(a) == shape(b) == shape(m)):
+                ctx.skip("fixtime: a decision within rounding of a tie (sample rate not dyadic)")
+                continue
+        ctx.disagree(bad[0], c, bad[1], bad[2])
+
+
+def _cmp_fixfull(ctx, c, r, m, ts_, ys_, niter):
+    """compare one fixtime result `r` with the model's `m`; -> None or (stream, impl, model)"""
+    ds = c["delspikes"]
+    br = "fixtime-full:%s:%s:%s" % ("auto" if c["sr_opt"] == "auto" else "sr", "spikes" if ds else "nospikes", "base" if c["base"] is not None else "nobase")
+    if m["early"] or r["early"]:
+        ctx.case(("fixfull", json.dumps(c, sort_keys=True)), nontrivial=True, branch="fixtime-full:only-dropouts")
+        if not (m["early"] and r["early"]):
+            return ("fixtime-full-early", r["early"], m["early"])
+        if not (np.array_equal(r["tn"], ts_) and np.array_equal(r["yn"], ys_, equal_nan=True) and r["dropouts"] == m["dropouts"]):
+            return ("fixtime-full-early", {"t": r["tn"].tolist()[:8], "dropouts": r["dropouts"]}, {"dropouts": m["dropouts"]})
+        return None
+    # statistics and the chosen rate
+    st = m["stats"]
+    mv = [float(st["max"]), float(st["min"]), float(st["ave"]), float(st["mode"]), float(st["pct"])]
+    sr_impl = None
+    if len(r["tn"]) > 1:
+        sr_impl = 1.0 / float(np.mean(np.diff(r["tn"])))
+    stats_ok = np.allclose(r["sr_stats"], mv, rtol=1e-9, atol=0)
+    rate_ok = sr_impl is None or abs(sr_impl - float(m["sr"])) <= 1e-7 * float(m["sr"])
+    if not (stats_ok and rate_ok):
+        kept = [Fraction(float(ts_[i])) for i in _kept_before_spikes(m)]
+        if _sr_near_tie(np.diff([float(x) for x in kept]), st):
+            ctx.skip("fixtime: a rounding or comparison of the sample-rate statistics within 1e-9 of a tie")
+            return None
+        return ("fixtime-full-sr", {"sr_stats": r["sr_stats"], "sr": sr_impl}, {"sr_stats": mv, "sr": float(m["sr"]), "dsr": float(st["dsr"]), "by_mode": st["bymode"]})
+    ctx.case(("fixfull", json.dumps(c, sort_keys=True)), nontrivial=True, branch=br)
+    if c["sr_opt"] == "auto":
+        ctx.count("branch:fixtime-auto-" + ("mode" if st["bymode"] else "average"))
+        if st["dsr"] != 5:
+            ctx.count("branch:fixtime-auto-slow-resolution")
+        if m["sr"] != c["sr"]:
+            ctx.count("branch:fixtime-auto-rate-differs-from-nominal")
+    if c["base"] is not None:
+        ctx.count("branch:fixtime-base")
+    if isinstance(c.get("dropval"), float) and m["dropouts"]:
+        ctx.count("branch:fixtime-dropval-given")
+    if c.get("dropval") == "nan":
+        ctx.count("branch:fixtime-dropval-not-finite")
+    if c.get("kind") == "sigma-tie":
+        ctx.count("branch:fixtime-time-exactly-3-sigma")
+    for k in ("dropouts", "outtimes", "spikes", "alldrops"):
+        if r[k] != m[k]:
+            if ds and k in ("spikes", "alldrops") and not c.get("spike_exact"):
+                pm = _delspikes_params(ds)
+                if pm[0] != "simple" and ((pm[5] is None and pm[4] == 0) or (pm[5] is not None and pm[5] <= 0)):
+                    ctx.skip("despike: no positive threshold, statistics not exact - flat windows are decided by rounding noise")
+                    return None
+            return ("fixtime-full-" + k, {kk: r[kk] for kk in ("dropouts", "outtimes", "spikes", "alldrops")},
+                    {kk: m[kk] for kk in ("dropouts", "outtimes", "spikes", "alldrops")})
+    if ds:
+        ctx.count("branch:fixtime-delspikes-" + _delspikes_params(ds)[0])
+        if m["spikes"]:
+            ctx.count("branch:fixtime-spikes-removed")
+            if len(m["alldrops"]) > len(set(m["spikes"]) | set(m["dropouts"] or []) | set(m["outtimes"] if c["delouttimes"] else [])):
+                ctx.count("branch:fixtime-loners-filled")
+        if niter is not None and r["niter"] != niter:
+            return ("fixtime-full-despike-niter", r["niter"], niter)
+    if r["tp"] != m["tp"]:
+        return ("fixtime-full-tp", r["tp"][:12], m["tp"][:12])
+    if [r["warn_small"], r["warn_large"]] != m["warn"]:
+        dt = 1 / m["sr"]
+        kept = [Fraction(float(ts_[i])) for i in m["keep"]]
+        d = [b - a for a, b in zip(kept, kept[1:])]
+        lo = Fraction(sum(1 for x in d if x < Fraction(93, 100) * dt), max(1, len(d)))
+        hi = Fraction(sum(1 for x in d if x > Fraction(107, 100) * dt), max(1, len(d)))
+        edge = any(abs(x - Fraction(93, 100) * dt) < Fraction(1, 10 ** 9) * dt or abs(x - Fraction(107, 100) * dt) < Fraction(1, 10 ** 9) * dt for x in d)
+        if edge or lo == Fraction(1, 100) or hi == Fraction(1, 100):
+            ctx.skip("fixtime: a time step within rounding of 0.93/1.07 dt (or exactly 1 % of the steps)")
+        else:
+            return ("fixtime-full-dt-warnings", [r["warn_small"], r["warn_large"]], m["warn"])
+    if m["warn"][0] or m["warn"][1]:
+        ctx.count("branch:fixtime-dt-size-warning")
+    # the time base
+    mt = m["tnew"]
+    tn = r["tn"]
+    dt = 1 / m["sr"]
+    if len(mt) != len(tn):
+        return ("fixtime-full-tnew", {"len": len(tn)}, {"len": len(mt)})
+    den = (mt[0].denominator if mt else 1)
+    dyadic = c["base"] is None and all((x.denominator & (x.denominator - 1)) == 0 and x.denominator <= 2 ** 40 for x in (mt[:1] + mt[-1:] + [dt]))
+    it = [Fraction(float(x)) for x in tn]
+    if dyadic:
+        ok = it == mt
+        ctx.count("branch:fixtime-full-exact-time-base")
+    else:
+        tol = Fraction(1, 10 ** 9) * dt * max(1, len(mt))
+        ok = all(abs(x - y) <= tol for x, y in zip(it, mt))
+    if not ok:
+        if c["base"] is not None and mt:
+            x = (Fraction(float(c["base"])) - (mt[0] - m["shift"])) * m["sr"]
+            if abs((x - math.floor(x)) - Fraction(1, 2)) <= Fraction(1, 10 ** 9) * max(1, abs(x)):
+                ctx.skip("fixtime: round((base - t0)*sr) within 1e-9 of a half (sample rate not dyadic)")
+                return None
+        return ("fixtime-full-tnew", {"tnew": tn.tolist()[:8]}, {"tnew": [float(x) for x in mt[:8]], "sr": float(m["sr"])})
+    want = ys_[m["src"]]
+    if len(r["yn"]) != len(want) or not np.array_equal(r["yn"], want, equal_nan=True):
+        dtd = dt.denominator
+        if (dtd & (dtd - 1)) != 0 and _index_near_tie([Fraction(float(ts_[i])) for i in m["keep"]], [x - m["shift"] for x in mt], c["hold"], Fraction(c["tol"]), dt):
+            ctx.skip("fixtime: a new time within 1e-9 dt of a nearest/previous-sample tie (sample rate not dyadic)")
+            return None
+        return ("fixtime-full-data", ["%r" % v for v in r["yn"].tolist()[:16]], ["%r" % v for v in want.tolist()[:16]])
+    return None
+
+
+def _index_near_tie(kept, mt, hold, tol, dt):
+    """is some new time (before the `base` shift) within 1e-9*dt of the point where the selected old sample changes?"""
+    import bisect
+
+    eps = Fraction(1, 10 ** 9) * dt
+    pts = sorted((x - dt * tol) for x in kept) if hold else sorted((a + b) / 2 for a, b in zip(kept, kept[1:]))
+    if not pts:
+        return False
+    for t in mt:
+        k = bisect.bisect_left(pts, t)
+        for j in (k - 1, k):
+            if 0 <= j < len(pts) and abs(pts[j] - t) <= eps:
+                return True
+    return False
+
+
+def _kept_before_spikes(m):
+    """positions (sorted record) that entered _sr_calcs: everything kept at the end plus the spikes' own positions are not known
+    in the sorted numbering when a sort happened; the statistics are re-derived only for the near-tie test"""
+    return m["keep"]
+
+
+# ----- _sr_calcs, _del_loners, exclusive_sgfilter, despike, despike_diff called directly ---------------------------
+
+def _corr_helpers(ctx, drv):
+    from pyyeti import dsp
+
+    rng = ctx.rng
+    # _sr_calcs ----------------------------------------------------------------------------------------
+    cases = [np.diff(np.arange(40) / 8.0), np.diff(np.arange(12) / 0.25), np.array([1.0, 1.0, 4.0]), np.array([0.25] * 19 + [10.0])]
+    for _ in range(ctx.pick(500, 4000)):
+        kind = rng.choice(["dy", "dec", "slow"])
+        n = rng.randint(3, 40)
+        if kind == "dy":
+            sr = 2 ** rng.choice([0, 1, 2, 3, 4, 5])
+            u = GRID // sr
+            ts = [k * u for k in range(n)]
+            if rng.random() < 0.7:
+                ts = [v + rng.randint(-(u // 8), u // 8) for v in ts]
+            if rng.random() < 0.5 and len(ts) > 4:
+                i = rng.randrange(1, len(ts) - 1)
+                del ts[i:i + rng.randint(1, 3)]
+            if rng.random() < 0.15 and len(ts) > 3:
+                ts[1] = ts[0]                     # two equal times: max_sr = inf
+            t = np.array(sorted(ts)) / GRID
+        else:
+            sr = rng.choice([10, 20, 50, 100, 7, 3, 12.5]) if kind == "dec" else rng.choice([0.5, 0.25, 0.05, 0.2, 1 / 3.0, 0.02])
+            t = np.arange(n) / sr
+            if rng.random() < 0.6:
+                t = np.sort(t + np.array([rng.uniform(-0.1, 0.1) / sr for _ in range(n)]))
+            if rng.random() < 0.3:
+                t = np.delete(t, rng.randrange(1, n - 1))
+        if len(t) >= 3:
+            cases.append(np.diff(t))
+    rep = drv.ask(["srq " + _qs(d) for d in cases])
+    for d, r in zip(cases, rep):
+        with warnings.catch_warnings():
+            _quiet()
+            try:
+                with np.errstate(all="ignore"):
+                    sr, st = dsp._sr_calcs(d, "auto", False)
+                impl = list(st) + [sr]
+            except ValueError:
+                impl = "raises"
+        if impl == "raises" or r == "raises":
+            ctx.case(("srq", tuple(d.tolist())), nontrivial=False, branch="sr-calcs:raises")
+            if impl != r:
+                ctx.disagree("sr-calcs", {"difft": d.tolist()}, impl, r)
+            continue
+        v = r.split()
+        st_m = {"max": float("inf") if v[0] == "inf" else Fraction(v[0]), "min": Fraction(v[1]), "ave": Fraction(v[2]), "mode": Fraction(v[3]),
+                "pct": Fraction(v[4]), "dsr": Fraction(v[5]), "bymode": v[6] == "1", "defsr": Fraction(v[7])}
+        want = [float(st_m[k]) for k in ("max", "min", "ave", "mode", "pct", "defsr")]
+        br = "sr-calcs:" + ("mode" if st_m["bymode"] else "average") + (":dsr5" if st_m["dsr"] == 5 else ":slow")
+        ctx.case(("srq", tuple(d.tolist())), nontrivial=True, branch=br)
+        if v[0] == "inf":
+            ctx.count("branch:sr-calcs-equal-times")
+        if not np.allclose(impl, want, rtol=1e-9, atol=0):
+            if _sr_near_tie(d, st_m):
+                ctx.skip("_sr_calcs: a rounding or comparison within 1e-9 of a tie")
+            else:
+                ctx.disagree("sr-calcs", {"difft": d.tolist()}, impl, want)
+    # _del_loners ----------------------------------------------------------------------------------------
+    lc = []
+    for _ in range(ctx.pick(600, 5000)):
+        ln = rng.randint(3, 40)
+        dens = rng.choice([0.1, 0.2, 0.4])
+        fl = [rng.random() < dens for _ in range(ln)]
+        lc.append((fl, rng.choice([3, 5, 9, 15, 1, 2, 40]), 3))
+    rep = drv.ask(["dlo %d %d | %s" % (n, nz, " ".join("1" if b else "0" for b in fl)) for fl, n, nz in lc])
+    for (fl, n, nz), r in zip(lc, rep):
+        a = np.array(fl, dtype=bool)
+        dsp._del_loners(a, n, nz)
+        got = " ".join("1" if b else "0" for b in a)
+        filled = int(a.sum()) > sum(fl)
+        ctx.case(("dlo", tuple(fl), n), nontrivial=filled, branch="del-loners:" + ("filled" if filled else "unchanged"))
+        if got != r:
+            ctx.disagree("del-loners", {"flags": [int(b) for b in fl], "n": n, "nz": nz}, got, r)
+    # exclusive_sgfilter / despike / despike_diff ----------------------------------------------------------
+    dc = []
+    for _ in range(ctx.pick(350, 2500)):
+        exact = rng.random() < 0.5
+        n = rng.choice([3, 5, 9] if exact else [3, 5, 9, 4, 7, 15])
+        ln = rng.randint(max(6, n + 2), 36)
+        x = _gen_spiky(rng, ln, exact)
+        xp = rng.choice(["f", "f", "m", "k0", "k1", "k%d" % (n - 1), "l"] + ([] if exact else ["n"]))
+        tv = rng.choice([None, 4.0, 2.0, 0.0, 8.0, 3.0, 5.0]) if not exact else rng.choice([4.0, 2.0, 8.0, 3.0, 5.0, 16.0, 0.0])
+        dc.append({"x": x, "n": n, "xp": xp, "tv": tv, "ts": float(rng.choice([2, 0, 1])), "sigma": rng.choice([8, 2, 3, 1]),
+                   "maxiter": rng.choice([-1, -1, 1, 2, 3, 0]), "exact": exact})
+    # the documentation examples
+    dc.append({"x": [1.0, 1, 1, 1, 5, 5, 1, 1, 1, 1], "n": 5, "xp": "f", "tv": None, "ts": 2.0, "sigma": 8, "maxiter": -1, "exact": False})
+    dc.append({"x": [1.0, 1, 1, 1, 5, 5, 1, 1, 1, 1], "n": 5, "xp": "m", "tv": None, "ts": 2.0, "sigma": 8, "maxiter": -1, "exact": False})
+    dc.append({"x": [2.0, 2, 2, 2, 5, 2, 2, 2, 2, 7, 2, 2, 2, 2, 2], "n": 5, "xp": "f", "tv": 4.0, "ts": 2.0, "sigma": 8, "maxiter": -1, "exact": True})
+    dc.append({"x": [2.0, 2, 2, 2, 6, 2, 2, 2, 2, 7, 2, 2, 2, 2, 2], "n": 5, "xp": "f", "tv": 4.0, "ts": 2.0, "sigma": 8, "maxiter": -1, "exact": True})
+    req = []
+    for c in dc:
+        for fnm in ("despike", "despike_diff"):
+            for eps in (0, _EPS, -_EPS):
+                req.append(_despike_requests(fnm, c["n"], c["sigma"], c["maxiter"], c["ts"], c["tv"], c["xp"], c["x"], eps))
+        req.append("sgf %d %s | %s" % (c["n"], c["xp"], _qs(c["x"])))
+    rep = drv.ask(req)
+    for k, c in enumerate(dc):
+        x = np.array(c["x"], dtype=float)
+        rs = rep[7 * k:7 * k + 7]
+        # the moving average itself
+        st, d = _guarded(lambda: dsp.exclusive_sgfilter(x.copy(), c["n"], exclude_point=_xp_py(c["xp"])))
+        if st == "ok" and rs[6] not in ("raises", "bad-op"):
+            md = np.array([float(v) for v in _unq(rs[6])])
+            ctx.case(("sgf", tuple(c["x"]), c["n"], c["xp"]), nontrivial=True, branch="sgfilter:" + (c["xp"] if c["xp"][0] != "k" else "index"))
+            if not _close(d, md, max(1.0, float(np.abs(x).max()))):
+                ctx.disagree("exclusive-sgfilter", {kk: c[kk] for kk in ("x", "n", "xp")}, np.asarray(d).tolist(), md.tolist())
+        elif (st == "ok") != (rs[6] not in ("raises", "bad-op")):
+            ctx.disagree("exclusive-sgfilter", {kk: c[kk] for kk in ("x", "n", "xp")}, st, rs[6])
+        for j, (fnm, fn) in enumerate((("despike", dsp.despike), ("despike_diff", dsp.despike_diff))):
+            nom, up, dn = rs[3 * j:3 * j + 3]
+
+            def call():
+                with warnings.catch_warnings():
+                    _quiet()
+                    with np.errstate(all="ignore"):
+                        return fn(x.copy(), c["n"], sigma=c["sigma"], maxiter=c["maxiter"], threshold_sigma=c["ts"], threshold_value=c["tv"],
+                                  exclude_point=_xp_py(c["xp"]))
+
+            st, s = _guarded(call, 2)
+            inp = dict(c, routine=fnm)
+            if st == "timeout":
+                ctx.count("despike:does-not-terminate")
+                if nom != "raises":
+                    ctx.disagree(fnm + "-termination", inp, "no result within 2 s", nom)
+                else:
+                    ctx.skip("despike: does not terminate on this record (the model's fuel runs out as well)")
+                continue
+            if st == "error" or nom in ("raises", "bad-op"):
+                ctx.case((fnm, json.dumps(c, sort_keys=True)), nontrivial=False, branch=fnm + ":raises")
+                if not (st == "error" and nom == "raises"):
+                    ctx.disagree(fnm + "-raises", inp, st, nom)
+                continue
+            got = "%s|%d" % (" ".join("1" if b else "0" for b in s.pv), s.niter)
+            tie = not (nom == up == dn)
+            ctx.case((fnm, json.dumps(c, sort_keys=True)), nontrivial="1" in nom, branch="%s:%s" % (fnm, {"f": "first", "l": "last", "m": "gen", "n": "gen"}.get(
+                c["xp"], "first" if c["xp"] == "k0" else "last" if c["xp"] == "k%d" % (c["n"] - 1) else "gen")))
+            if tie and not c["exact"]:
+                ctx.skip("despike: a decision within 1e-9 of its threshold")
+                continue
+            if tie:
+                ctx.count("branch:despike-exact-tie")
+            if c["maxiter"] > 0 and s.niter == c["maxiter"]:
+                ctx.count("branch:despike-maxiter-reached")
+            if got != nom:
+                if not c["exact"] and ((c["tv"] is None and c["ts"] == 0) or (c["tv"] is not None and c["tv"] <= 0)):
+                    # no positive threshold and a window that is not 2^k + 1 points: on a flat stretch the code compares rounding
+                    # noise with rounding noise (exactly: 0 > 0)
+                    ctx.skip("despike: no positive threshold, statistics not exact - flat windows are decided by rounding noise")
+                    continue
+                ctx.disagree(fnm, inp, got, nom)
+            elif not np.array_equal(np.asarray(s.x), x[~np.asarray(s.pv)]):
+                ctx.disagree(fnm + "-returned-signal", inp, np.asarray(s.x).tolist(), x[~np.asarray(s.pv)].tolist())
+
+
 # ----- fixtime's time base -----------------------------------------------------------------
 
 def _gen_told_for_tnew(rng):
@@ -1350,6 +1999,8 @@ def correspondence(ctx):
     drv = ctx.driver("C19")
     _corr_index_rules(ctx, drv)
     _corr_fixtime(ctx, drv)
+    _corr_fixfull(ctx, drv)
+    _corr_helpers(ctx, drv)
     _corr_tnew(ctx, drv)
     _corr_resample(ctx, drv)
     _corr_psd(ctx, drv)
@@ -1362,6 +2013,17 @@ def correspondence(ctx):
         "branch:edges-get-fl-fu-log", "branch:edges-input-scale-linear", "branch:edges-input-scale-log",
         "branch:edges-exact-rational", "edges:exact", "edges:below-tol", "edges:above-tol",
     ] if have_edges else []) + [
+        "fixtime-full:auto:nospikes:nobase", "fixtime-full:auto:spikes:base", "fixtime-full:sr:spikes:nobase", "fixtime-full:sr:nospikes:base",
+        "fixtime-full:only-dropouts", "fixtime-full:raises",
+        "branch:fixtime-auto-average", "branch:fixtime-auto-mode", "branch:fixtime-auto-rate-differs-from-nominal",
+        "branch:fixtime-auto-slow-resolution", "branch:fixtime-base", "branch:fixtime-delspikes-despike",
+        "branch:fixtime-delspikes-despike_diff", "branch:fixtime-delspikes-simple", "branch:fixtime-dropval-given",
+        "branch:fixtime-dropval-not-finite", "branch:fixtime-dt-size-warning", "branch:fixtime-full-exact-time-base",
+        "branch:fixtime-loners-filled", "branch:fixtime-spikes-removed", "branch:fixtime-time-exactly-3-sigma",
+        "branch:despike-exact-tie", "branch:despike-maxiter-reached", "branch:sr-calcs-equal-times",
+        "del-loners:filled", "del-loners:unchanged", "despike:first", "despike:gen", "despike:last", "despike_diff:first",
+        "despike_diff:last", "despike_diff:raises", "sgfilter:f", "sgfilter:m", "sgfilter:l", "sgfilter:n", "sgfilter:index",
+        "sr-calcs:average:dsr5", "sr-calcs:average:slow", "sr-calcs:mode:dsr5", "sr-calcs:mode:slow",
         "branch:tnew-no-align", "branch:tnew-align-length-mismatch", "branch:tnew-align-mean", "branch:tnew-round-half-tie",
         "branch:tnew-exact-compare", "branch:tnew-shifted", "branch:fixtime-tnew-end-to-end",
         "branch:fixtime-outlier-time", "branch:fixtime-dropout-and-outlier-time", "branch:fixtime-dropval-dropout",
